@@ -9,6 +9,8 @@ from harness import xser, xbuild, defgen, xmlgen, xmlutil, xmlops
 from harness.xser import S
 from harness.xbuild import uS
 
+from harness.props import c09
+
 ID = "C17"
 REQUIRED_THEOREMS = ["types_unique", "params_unique", "containers_unique", "duplicate_type_rejected",
                      "duplicate_parameter_rejected", "unknown_type_ref_rejected", "parameter_type_resolves",
@@ -109,9 +111,9 @@ def line_of(root_el, prefix="xtce"):
 
 
 def generate(rng, tier):
-    ndefs = 14 if tier == "quick" else 120
+    ndefs = 14 if tier == "quick" else 400
     for _ in range(ndefs):
-        d = defgen.Defn(rng, max_depth=rng.choice([1, 2, 3]), fanout=3)
+        d = defgen.Defn(rng, max_depth=rng.choice([1, 2, 3]), fanout=3, adj_pool=c09.ADJ_POOL, rich=True)
         sp = xmlgen.Spelling("prefix", "xtce", comments=0.0)
         xml = xmlgen.document(rng, d.sexpr(), sp)
         root = ET.fromstring(xml)
